@@ -258,3 +258,36 @@ pub fn handle(args: &[&str]) -> Option<String> {
     let o = EvalOpts::parse(&args[1..])?;
     Some(eval_source(&src, &o))
 }
+
+/// the source text of a "big" request: `<hex template> <hex fill> <len>`; the single `@` of the template is replaced
+/// by `len` bytes of the repeated fill pattern (sources too large to send as hex)
+pub fn big_source(args: &[&str]) -> Option<Vec<u8>> {
+    let tmpl = hex_dec(args.first()?)?;
+    let fill = hex_dec(args.get(1)?)?;
+    let len: usize = args.get(2)?.parse().ok()?;
+    if fill.is_empty() || len > (1 << 28) {
+        return None;
+    }
+    let at = tmpl.iter().position(|&b| b == b'@')?;
+    let mut src = Vec::with_capacity(tmpl.len() + len);
+    src.extend_from_slice(&tmpl[..at]);
+    while src.len() < at + len {
+        let n = (at + len - src.len()).min(fill.len());
+        src.extend_from_slice(&fill[..n]);
+    }
+    src.extend_from_slice(&tmpl[at + 1..]);
+    Some(src)
+}
+
+/// `evalbig <hex template> <hex fill> <len> [opts]`: like `eval`; a successful result is reported by its length only
+pub fn handle_big(args: &[&str]) -> Option<String> {
+    let src = big_source(args)?;
+    let o = EvalOpts::parse(&args[3..])?;
+    let r = eval_source(&src, &o);
+    if let Some(rest) = r.strip_prefix("ok ") {
+        let first = rest.split(' ').next().unwrap_or("");
+        Some(format!("ok len={}", first.len() / 2))
+    } else {
+        Some(r)
+    }
+}
